@@ -32,7 +32,37 @@ typedef struct {
 	pthread_barrier_t bar;
 	int main_tid;
 	_Atomic uint64_t not_on_main;
+	/* sources whose handlers run on the main queue hierarchy: a DATA_ADD source on the main queue, a repeating timer on the serial queue over it */
+	dispatch_source_t dsrc, tsrc;
+	_Atomic uint64_t merged, src_cancelled;
+	uint64_t delivered, handler_runs, timer_runs;   /* written by the handlers only: they are serialised with everything else of the hierarchy */
+	_Atomic uint32_t in_src_handler;
+	uint64_t src_off_main;
 } mq_trial_t;
+
+static void mq_src_common(mq_trial_t *t, int timer)
+{
+	if (atomic_exchange(&t->in_src_handler, 1)) vf_violation("C15:handler-reentered:main-queue-hierarchy", "two source handlers of the main queue hierarchy running at once");
+	if (g_cf && vf_gettid() != t->main_tid) t->src_off_main++;
+	if (dispatch_get_specific(&k_main_key) != (void *)t) vf_violation("C18:get_specific:source-handler-on-main-queue-hierarchy:returns-NULL", "source handler on the main queue hierarchy does not see the value set on the main queue");
+	/* the same unsynchronised counter the items use: a handler overlapping an item loses an update */
+	uint64_t v = t->plain_ctr;
+	if ((v & 7) == 0) sched_yield();
+	t->plain_ctr = v + 1;
+	if (timer) t->timer_runs++; else t->handler_runs++;
+	vf_progress();
+	atomic_store(&t->in_src_handler, 0);
+}
+static void mq_data_handler(void *ctx)
+{
+	mq_trial_t *t = ctx;
+	unsigned long d = dispatch_source_get_data(t->dsrc);
+	if (!d) vf_violation("C15:zero-data:main-queue", "DATA_ADD handler on the main queue invoked with 0");
+	t->delivered += d;
+	mq_src_common(t, 0);
+}
+static void mq_timer_handler(void *ctx) { mq_src_common(ctx, 1); }
+static void mq_src_cancel(void *ctx) { mq_trial_t *t = ctx; atomic_fetch_add_explicit(&t->src_cancelled, 1, memory_order_release); }
 
 static void mq_body(void *ctx)
 {
@@ -106,6 +136,7 @@ static void *mq_client(void *arg)
 			vf_violation("C05:sync-returned-early", "%s on the main queue returned before item %u finished", vf_kind_names[kind], it->id);
 		}
 		if (vf_rnd_n(&c->rng, 40) == 0) dispatch_group_wait(grp, DISPATCH_TIME_FOREVER);
+		if (vf_rnd_n(&c->rng, 8) == 0) { uint64_t v = 1 + vf_rnd_n(&c->rng, 5); atomic_fetch_add(&t->merged, v); dispatch_source_merge_data(t->dsrc, v); }
 	}
 	dispatch_group_wait(grp, DISPATCH_TIME_FOREVER);
 	dispatch_release(grp);
@@ -135,6 +166,13 @@ static void *controller(void *arg)
 		dispatch_queue_set_specific(t->qs[1], &k_inner_key, t->qs[1], NULL);
 		dispatch_queue_set_specific(t->qs[2], &k_inner_key, t->qs[2], NULL);
 		t->items = calloc((size_t)t->cap, sizeof(vf_item_t));
+		t->dsrc = dispatch_source_create(DISPATCH_SOURCE_TYPE_DATA_ADD, 0, 0, t->qs[0]);
+		t->tsrc = dispatch_source_create(DISPATCH_SOURCE_TYPE_TIMER, 0, 0, t->qs[1]);
+		dispatch_set_context(t->dsrc, t); dispatch_set_context(t->tsrc, t);
+		dispatch_source_set_event_handler_f(t->dsrc, mq_data_handler); dispatch_source_set_cancel_handler_f(t->dsrc, mq_src_cancel);
+		dispatch_source_set_event_handler_f(t->tsrc, mq_timer_handler); dispatch_source_set_cancel_handler_f(t->tsrc, mq_src_cancel);
+		dispatch_source_set_timer(t->tsrc, dispatch_time(DISPATCH_TIME_NOW, 200000), 300000 + vf_rnd_n(&r, 700000), 0);
+		dispatch_activate(t->dsrc); dispatch_activate(t->tsrc);
 		pthread_barrier_init(&t->bar, NULL, (unsigned)t->nclients);
 		mq_client_t cl[8];
 		vf_watch_begin("mainq:clients", 0);
@@ -147,6 +185,17 @@ static void *controller(void *arg)
 		vf_watch_end();
 		uint64_t expected = atomic_load(&t->expected);
 		vf_wait_counter(&t->done, expected, "mainq:quiescence");
+		/* every merged value has to be delivered before the source is cancelled: wait for it through the hierarchy itself */
+		vf_watch_begin("mainq:merged-values-delivered", 0);
+		for (;;) {
+			__block uint64_t seen = 0;
+			dispatch_sync(t->qs[1], ^{ seen = t->delivered; });   /* runs on the hierarchy: serialised with the handler */
+			if (seen >= atomic_load(&t->merged)) break;
+			struct timespec ts = { 0, 200000 }; nanosleep(&ts, NULL);
+		}
+		vf_watch_end();
+		dispatch_source_cancel(t->dsrc); dispatch_source_cancel(t->tsrc);
+		vf_wait_counter(&t->src_cancelled, 2, "mainq:source-cancel-handlers");
 		vf_perturb_off();
 		int n = atomic_load(&t->next); if (n > t->cap) n = t->cap;
 		vf_item_t **sel = malloc(sizeof(*sel) * (size_t)(n + 1));
@@ -172,7 +221,10 @@ static void *controller(void *arg)
 			else vf_check_queue_rules(sq, mm, r1, r2, VF_Q_MAIN, qi ? "C02:overlap:serial" : "C02:overlap:main-queue", qi ? "C03:fifo:serial-in-hierarchy" : "C02:fifo:main-queue", what, &st);
 			free(sq);
 		}
-		if (t->plain_ctr != (uint64_t)m) vf_violation("C02:plain-counter-lost-update", "main queue: unsynchronised counter %llu after %d items", (unsigned long long)t->plain_ctr, m);
+		if (t->plain_ctr != (uint64_t)m + t->handler_runs + t->timer_runs) vf_violation("C02:plain-counter-lost-update", "main queue: unsynchronised counter %llu after %d items and %llu source handler invocations", (unsigned long long)t->plain_ctr, m, (unsigned long long)(t->handler_runs + t->timer_runs));
+		if (t->delivered != atomic_load(&t->merged)) vf_violation("C15:sum-mismatch:main-queue", "DATA_ADD source on the main queue: merged %llu, delivered %llu", (unsigned long long)atomic_load(&t->merged), (unsigned long long)t->delivered);
+		if (g_cf && t->src_off_main) vf_violation("C02:main-queue:thread-bound-item-ran-off-the-main-thread", "%llu source handler invocations of the thread-bound main queue hierarchy ran on another thread", (unsigned long long)t->src_off_main);
+		vf_count("mainq_source_handler_invocations", t->handler_runs + t->timer_runs);
 		/* async items must run on the main thread; sync ones may run on the caller */
 		int threads = 0, seen[64];
 		for (int i = 0; i < m; i++) {
@@ -191,6 +243,7 @@ static void *controller(void *arg)
 		vf_emit("trial", "\"n\":1,\"sig\":\"mq%d-%d-%d-%d\",\"nontrivial\":%s,\"sample\":{\"trial\":%d,\"shape\":\"main-queue\",\"clients\":%d,\"items\":%d,\"threads_that_ran_items\":%d,\"perturb\":\"%s\"}",
 				t->nclients, prof.kind, vf_log2_bucket(st.cross_thread), threads, (st.cross_thread || g_cf) ? "true" : "false", idx, t->nclients, m, threads, prof.desc);
 		dispatch_queue_set_specific(t->qs[0], &k_main_key, NULL, NULL);
+		dispatch_release(t->dsrc); dispatch_release(t->tsrc);
 		dispatch_release(t->qs[1]); dispatch_release(t->qs[2]);
 		free(sel); free(r1); free(r2); free(t->items);
 		if (g_cf && tr == vf_opts.trials - 1) {
